@@ -182,6 +182,26 @@ def main():
         for v in kr.get("violations", []):
             violations.append(dict(unit="kani:" + kr["name"], fs="-", label=v["harness"], text=v["text"], diag=dict(message=v["message"], fn=v["harness"], rendered=v.get("trace", "")), res=None, kani=v))
 
+    # ---- bounded stand-ins (clauses no contract within reach decides): CLI scenarios on the real binary.
+    # Labelled bounded in the evidence and never counted as discharged obligations.
+    bounded_runs = []
+    if not violations:
+        import replay
+        for wsc in spec.get("bounded", []):
+            try:
+                v, j = replay.run_witness(wsc)
+            except Exception as e:
+                v, j = False, dict(error=str(e))
+            bounded_runs.append(dict(scenario=wsc.get("scenario"), violated=v, detail=j.get("detail") or j.get("error") or ""))
+            if v:
+                kf = next((k for k in known if k["prop"] == prop and k["label"] == "bounded:" + str(wsc.get("scenario"))), None)
+                if kf:
+                    print(f"KNOWN-FINDING: property={prop} bounded scenario {wsc.get('scenario')} — {kf['text']}")
+                    continue
+                violations.append(dict(unit="cli", fs="-", label="bounded:" + str(wsc.get("scenario")), text="bounded CLI scenario (stand-in for clauses outside every contract)",
+                                       diag=dict(message=j.get("detail"), fn="stylua (binary)", rendered=json.dumps(j)[:3000]), res=None, scenario=wsc, scenario_result=j))
+    spec["_bounded_runs"] = bounded_runs
+
     rc = 0
     vcount = 0
     if violations:
@@ -242,6 +262,7 @@ def write_evidence(prop, tier, seed, spec, results, kani_results, obligations, d
                             runs=per_run, solver_ms=solver_ms,
                             kani=[dict(name=k["name"], status=k["status"], harnesses=k.get("harnesses"), bounded=k.get("bounded", False), note=k.get("note", "")) for k in kani_results],
                             not_decided=spec.get("not_decided", []),
+                            bounded_stand_ins=[dict(b, note="bounded: fixed scenario on the real binary; not counted as a discharged obligation") for b in spec.get("_bounded_runs", [])],
                             explanation=spec.get("explanation", ""),
                             known_findings=[f"{k['label']} in {k['fn']}: {k['text']}" for k in known]),
               assumptions=spec.get("assumptions", []) + ([note] if note else []),
